@@ -601,6 +601,31 @@ def check_eml_dates():
     return None
 
 
+def check_eml_attachments():
+    """.eml: every attachment of the message is returned, in order, with name, type and exact bytes.  Systematic (not sampled):
+    every generated document (0-byte, binary, text in a foreign charset, non-file-safe names, ...) alone and next to its
+    neighbour, with and without a text body in front."""
+    from email.message import EmailMessage
+    from email import policy
+    groups = [[d] for d in DOCS] + [[DOCS[i], DOCS[(i + 1) % len(DOCS)]] for i in range(len(DOCS))]
+    for with_body in (True, False):
+        for docs in groups:
+            m = EmailMessage(policy=policy.default.clone(linesep="\n"))
+            m["From"], m["To"], m["Subject"], m["Date"] = "a@x.org", "b@x.org", "attachments", "Mon, 01 Jan 2024 10:00:00 +0000"
+            if with_body:
+                m.set_content("body\n")
+            for (name, mt, st, data) in docs:
+                m.add_attachment(data, maintype=mt, subtype=st, filename=name)
+            raw = m.as_bytes()
+            exp = [(name, f"{mt}/{st}", data) for (name, mt, st, data) in docs]
+            res = run_eml(raw)
+            got = [(a.filename, a.mime_type, a.data.getvalue()) for r in res for a in r.attachments]
+            if got != exp:
+                return {"target": "eml_email_extractor.py::_read_eml_format", "inputs": {"message": raw.decode("latin-1")},
+                        "expected": _short([(n, t_, len(d), d[:40]) for n, t_, d in exp]), "observed": _short([(n, t_, len(d), d[:40]) for n, t_, d in got])}
+    return None
+
+
 def _std_type(ext):
     import mimetypes
     return mimetypes.guess_type("file." + ext)[0]
@@ -998,6 +1023,9 @@ WITNESSES = [
     ("every-attachment-is-returned", w_mbox_attachments),
     ("get_body_content/", w_disposition),
     ("_read_eml_format/raises", w_eml_no_from),
+    ("_read_eml_format/inv-init#attachments", _w(check_eml_attachments)),
+    ("_read_eml_format/inv-preserve#attachments", _w(check_eml_attachments)),
+    ("_read_eml_format/ensures#every-attachment", _w(check_eml_attachments)),
     ("decode_header_value/ensures", w_unfold_fn),
     ("_read_eml_format/ensures#subject", lambda: w_folded_subject("eml")),
     ("parse_email_message/ensures#message_id", w_folded_ids),
